@@ -82,6 +82,8 @@ def operation_plan(draw, dialects=("3.0", "3.0", "3.1", "2.0"), max_params=4, bo
         used.add((key(name), loc))
         p = draw(parameter(dialect, loc, name))
         p["level"] = draw(st.sampled_from(["operation", "operation", "path"]))
+        if loc in ("query", "header") and dialect != "2.0" and draw(st.integers(0, 7)) == 0:
+            p["content"] = draw(st.sampled_from(["application/json", "text/plain", "application/vnd.api+json", "application/json; charset=utf-8"]))
         p["ref"] = draw(st.integers(0, 4)) == 0
         params.append(p)
     path = "/t" + "".join("/{%s}" % p["name"] for p in params if p["in"] == "path")
@@ -137,6 +139,9 @@ def render_parameter(p, dialect):
         d = {"name": p["name"], "in": p["in"], "required": p["required"]}
         d.update(copy.deepcopy(p["schema"]))
         return d
+    if p.get("content") and dialect != "2.0":
+        # the `content` form of a parameter: one media type with the schema below it
+        return {"name": p["name"], "in": p["in"], "required": p["required"], "content": {p["content"]: {"schema": copy.deepcopy(p["schema"])}}}
     return {"name": p["name"], "in": p["in"], "required": p["required"], "schema": copy.deepcopy(p["schema"])}
 
 
